@@ -19,10 +19,14 @@ tvars == <<k, pos, bad, stage, errors, unsafe, object, entries>>
 TInit == k = 0 /\ pos = 0 /\ bad = FALSE /\ PInit
 
 Cur == Rec[IF k = 0 THEN 1 ELSE k]      \* total: k = 0 only before the first record
+CtId == [e \in {"ct:1", "ct:2", "ct:3", "ct:4", "ct:5", "ct:6", "ct:7", "ct:8"} |->
+            CASE e = "ct:1" -> 1 [] e = "ct:2" -> 2 [] e = "ct:3" -> 3 [] e = "ct:4" -> 4
+              [] e = "ct:5" -> 5 [] e = "ct:6" -> 6 [] e = "ct:7" -> 7 [] e = "ct:8" -> 8]
 (* consume event e of the current record with the matching Pipeline action *)
 Consume(e) ==
     CASE e = "frontend" -> Frontend(Cur.herr, IF Cur.entries > 3 THEN 3 ELSE Cur.entries)
       [] e = "infer" -> Infer(Cur.terr, Cur.texpr, Cur.unsafe)
+      [] e \in DOMAIN CtId -> EvalBlock(CtId[e], {Cur.ct_bad[j] : j \in 1..Len(Cur.ct_bad)})
       [] e = "diagnostics" -> Report
       [] e = "comptime" -> Comptime
       [] e = "no-entry" -> NoEntry
